@@ -2,7 +2,7 @@
    safe.  Statements only: each theorem is closed by [exact], pinned by [Check]
    and followed by [Print Assumptions]. *)
 From Coq Require Import List ZArith NArith Bool.
-From RB Require Import Base.Val Model.Api Spec.ApiSpec Proofs.ApiRt Proofs.Api.
+From RB Require Import Base.Val Model.Api Spec.ApiSpec Proofs.ApiRt Proofs.ApiNlri Proofs.Api.
 Import ListNotations.
 Open Scope N_scope.
 
@@ -127,3 +127,38 @@ Check api_accepted_is_safe :
     /\ (forall a, In a l -> exists b, encode_attr a = Ok b)
     /\ (forall a, In a l -> core_code (a_code a) = true -> exists x, to_api v6p a = Ok x).
 Print Assumptions api_accepted_is_safe.
+
+(* (9) net_from_api (nlri_to_api n) = n for every well-formed IPv4 / IPv6 unicast or
+   labeled-unicast NLRI, under the stated assumptions on the Ipv6Addr textual form
+   (round trip, not an IPv4 string, no '/'). *)
+Theorem nlri_roundtrip_core :
+  forall (v6p : N -> list N) (v6r : list N -> option N) (n : nlri),
+    v6_contract v6p v6r -> v6_noslash v6p -> wf_nlri n ->
+    net_from_api v6r (nlri_to_api v6p n) = Some n.
+Proof. exact C17_nlri_roundtrip_core. Qed.
+Check nlri_roundtrip_core :
+  forall (v6p : N -> list N) (v6r : list N -> option N) (n : nlri),
+    v6_contract v6p v6r -> v6_noslash v6p -> wf_nlri n ->
+    net_from_api v6r (nlri_to_api v6p n) = Some n.
+Print Assumptions nlri_roundtrip_core.
+
+(* (10) An NLRI accepted by net_from_api (Prefix / LabeledPrefix arms) satisfies what
+   the NLRI decoders guarantee: length within the address width, at least one
+   20-bit label, total bits within the one-octet length. *)
+Theorem net_from_api_preserves_wf :
+  forall (v6r : list N -> option N) (x : api_nlri) (n : nlri),
+    v6_range v6r -> net_from_api v6r x = Some n -> wf_nlri n.
+Proof. exact C17_net_from_api_preserves_wf. Qed.
+Check net_from_api_preserves_wf :
+  forall (v6r : list N -> option N) (x : api_nlri) (n : nlri),
+    v6_range v6r -> net_from_api v6r x = Some n -> wf_nlri n.
+Print Assumptions net_from_api_preserves_wf.
+
+(* (11) The NLRI encoders cannot panic on a well-formed NLRI, in a debug or a
+   release build (no index past the address octets, no u8 overflow). *)
+Theorem nlri_encode_safe :
+  forall (p : profile) (n : nlri), wf_nlri n -> exists b, encode_nlri p n = Ok b.
+Proof. exact C17_nlri_encode_safe. Qed.
+Check nlri_encode_safe :
+  forall (p : profile) (n : nlri), wf_nlri n -> exists b, encode_nlri p n = Ok b.
+Print Assumptions nlri_encode_safe.
